@@ -1,12 +1,23 @@
 (* Props/C12.v — cutting, deleting and relabelling return exactly the described sub-lattice.
-   Only the property theorems; proofs are in Proofs/Surgery*.v; the model is Model/Surgery.v. *)
-From Coq Require Import List ZArith Bool Arith.
-From Koala Require Import Model.Lattice Model.Surgery Proofs.SurgeryFacts.
+   Only the property theorems; proofs are in Proofs/Surgery*.v; the model is Model/Surgery.v
+   (cut_boundaries, remove_vertices, remove_trailing_edges, permute_vertices, reorder_vertices and
+   the specification-side sub_lattice / rank / deg_in).
+
+   NOT covered by a theorem (checked on the implementation by harness/c12.py only):
+   "every plaquette none of whose edges was removed is a plaquette of the output with the same
+   geometry" for cut / remove_vertices / remove_trailing_edges, and "cutting creates no new
+   plaquettes" (topological; needs geometrically truthful crossing flags).  "Trailing-edge removal
+   creates no new plaquettes" is REFUTED below. *)
+From Coq Require Import List ZArith Bool Arith Sorted.
+From Koala Require Import Model.Lattice Model.Surgery.
+From Koala Require Import Proofs.SurgeryFacts Proofs.SurgeryTrailing Proofs.SurgeryPerm Proofs.SurgeryEquivariant.
 Import ListNotations.
 
+(* ------------------------------------------------------------------ cutting *)
 (* clause "cutting boundaries removes exactly the edges that cross the selected boundaries and nothing
    else": positions and scale untouched; output edges = the input's edges that do not cross a selected
-   boundary, in input order, each with its crossing.  Every lattice, no hypothesis. *)
+   boundary (cut_kept = filter (not crosses_selected) over the edge indices), in input order, each with
+   its crossing.  Every lattice, no hypothesis. *)
 Theorem C12_cut_spec : forall (L : lattice) (bx by_ : bool),
   scale (cut_boundaries L bx by_) = scale L /\
   pos (cut_boundaries L bx by_) = pos L /\
@@ -14,3 +25,193 @@ Theorem C12_cut_spec : forall (L : lattice) (bx by_ : bool),
   crossing (cut_boundaries L bx by_) = map (cross_at L) (cut_kept L bx by_).
 Proof. exact cut_spec_idx. Qed.
 Print Assumptions C12_cut_spec.
+
+(* the same clause without indices: the (edge, crossing) rows of the output are the input's rows
+   filtered by "does not cross a selected boundary", in order *)
+Theorem C12_cut_rows : forall (L : lattice) (bx by_ : bool), length (crossing L) = nE L ->
+  combine (edges (cut_boundaries L bx by_)) (crossing (cut_boundaries L bx by_)) =
+  filter (fun ec : (nat * nat) * vec => negb (crosses_selected bx by_ (snd ec))) (combine (edges L) (crossing L)).
+Proof. exact cut_spec_rows. Qed.
+Print Assumptions C12_cut_rows.
+
+(* which edges survive, and that survivors keep their vectors *)
+Theorem C12_cut_kept : forall (L : lattice) (bx by_ : bool) (e : nat),
+  In e (cut_kept L bx by_) <-> (e < nE L /\ crosses_selected bx by_ (cross_at L e) = false).
+Proof. exact cut_kept_In. Qed.
+Print Assumptions C12_cut_kept.
+
+Theorem C12_cut_vectors : forall (L : lattice) (bx by_ : bool) (i : nat),
+  i < nE (cut_boundaries L bx by_) ->
+  evec (cut_boundaries L bx by_) i = evec L (nth i (cut_kept L bx by_) 0).
+Proof. exact cut_evec. Qed.
+Print Assumptions C12_cut_vectors.
+
+(* quantifier "repeated application: cut after cut" — cut after cut = cut of the union; idempotence *)
+Theorem C12_cut_cut : forall (L : lattice) (bx by_ bx' by' : bool),
+  cut_boundaries (cut_boundaries L bx by_) bx' by' = cut_boundaries L (bx || bx') (by_ || by').
+Proof. exact cut_cut. Qed.
+Print Assumptions C12_cut_cut.
+
+Theorem C12_cut_idempotent : forall (L : lattice) (bx by_ : bool),
+  cut_boundaries (cut_boundaries L bx by_) bx by_ = cut_boundaries L bx by_.
+Proof. exact cut_idempotent. Qed.
+Print Assumptions C12_cut_idempotent.
+
+(* ------------------------------------------------------------------ removing vertices *)
+(* clause "removing vertices removes exactly those vertices and the edges touching them (reported as
+   such), renumbers the rest in order and keeps positions, crossings and edge order": for every
+   well-formed lattice and every in-range index list (any order, repetitions allowed) the result is the
+   sub-lattice on kept_vertices (the vertices not listed, ascending) and kept_edges (the edges with both
+   ends not listed, ascending), new index = rank among the kept vertices, positions and crossings
+   carried over; the reported edges are, as a set, exactly the other edges. *)
+Theorem C12_remove_vertices_spec : forall (L : lattice) (idx : list nat),
+  wf_lattice L = true -> Forall (fun i => i < nV L) idx ->
+  exists rep,
+    remove_vertices L idx = Some (sub_lattice L (kept_vertices L idx) (kept_edges L idx), rep) /\
+    (forall e, In e rep <-> (e < nE L /\ both_ends L (fun v => negb (memb v idx)) e = false)).
+Proof. exact remove_vertices_spec. Qed.
+Print Assumptions C12_remove_vertices_spec.
+
+(* what kept_vertices / kept_edges are: ascending, exactly the unlisted vertices / the edges with both
+   ends unlisted, and a valid sub-lattice datum *)
+Theorem C12_kept_reading : forall (L : lattice) (idx : list nat), wf_lattice L = true ->
+  valid_sub L (kept_vertices L idx) (kept_edges L idx) /\
+  StronglySorted lt (kept_vertices L idx) /\ StronglySorted lt (kept_edges L idx) /\
+  (forall v, In v (kept_vertices L idx) <-> (v < nV L /\ ~ In v idx)) /\
+  (forall e, In e (kept_edges L idx) <->
+             (e < nE L /\ ~ In (fst (edge_at L e)) idx /\ ~ In (snd (edge_at L e)) idx)).
+Proof. exact kept_reading. Qed.
+Print Assumptions C12_kept_reading.
+
+(* what sub_lattice L kv ke is (for valid data: kv, ke duplicate-free lists of vertex / edge indices, every
+   kept edge has both ends kept): vertex i is old vertex kv[i] at the same position; edge i is old edge
+   ke[i] with ends renamed by rank (rank kv (kv[i]) = i, kv[rank v] = v), same crossing, same vector *)
+Theorem C12_sub_lattice_reading : forall (L : lattice) (kv ke : list nat), valid_sub L kv ke ->
+  nV (sub_lattice L kv ke) = length kv /\ nE (sub_lattice L kv ke) = length ke /\
+  scale (sub_lattice L kv ke) = scale L /\
+  (forall i, i < length kv ->
+     pos_at (sub_lattice L kv ke) i = pos_at L (nth i kv 0) /\ rank kv (nth i kv 0) = i) /\
+  (forall i, i < length ke ->
+     edge_at (sub_lattice L kv ke) i
+       = (rank kv (fst (edge_at L (nth i ke 0))), rank kv (snd (edge_at L (nth i ke 0)))) /\
+     nth (rank kv (fst (edge_at L (nth i ke 0)))) kv 0 = fst (edge_at L (nth i ke 0)) /\
+     nth (rank kv (snd (edge_at L (nth i ke 0)))) kv 0 = snd (edge_at L (nth i ke 0)) /\
+     cross_at (sub_lattice L kv ke) i = cross_at L (nth i ke 0) /\
+     evec (sub_lattice L kv ke) i = evec L (nth i ke 0)).
+Proof. exact sub_lattice_reading. Qed.
+Print Assumptions C12_sub_lattice_reading.
+
+(* quantifier "vertex subsets ... including none, all" *)
+Theorem C12_remove_vertices_none : forall (L : lattice), wf_lattice L = true ->
+  remove_vertices L [] = Some (L, []).
+Proof. exact remove_vertices_none. Qed.
+Print Assumptions C12_remove_vertices_none.
+
+Theorem C12_remove_vertices_all : forall (L : lattice) (idx : list nat),
+  wf_lattice L = true -> Forall (fun i => i < nV L) idx -> (forall v, v < nV L -> In v idx) ->
+  exists rep, remove_vertices L idx = Some (mkLattice (scale L) [] [] [], rep) /\
+              (forall e, In e rep <-> e < nE L).
+Proof. exact remove_vertices_all. Qed.
+Print Assumptions C12_remove_vertices_all.
+
+(* ------------------------------------------------------------------ trailing edges *)
+(* clause "removing trailing edges yields the largest sub-lattice without degree-one vertices".  For
+   every well-formed lattice: the while loop ends within the fuel nV+1 of the model (never OutOfFuel,
+   never BadIndex); the result is the sub-lattice on an ascending list kv of kept vertices and an
+   ascending list ke of kept edges (so order, positions, crossings, vectors are kept — see
+   C12_sub_lattice_reading); the result has no vertex with exactly one incident edge; inside the input,
+   the kept edge set has no degree-one vertex and CONTAINS EVERY set K of edges of the input in which no
+   vertex has degree one (it is the greatest such set = the edges of the 2-core).  Degree = number of
+   incident edges (deg_in), which is the graph degree when there are no self-loops. *)
+Theorem C12_trailing_spec : forall (L : lattice), wf_lattice L = true ->
+  exists kv ke,
+    remove_trailing_edges L = TrailDone (sub_lattice L kv ke) /\
+    trailing_survivors L = Some (kv, ke) /\
+    valid_sub L kv ke /\ StronglySorted lt kv /\ StronglySorted lt ke /\
+    (forall v, length (incident (sub_lattice L kv ke) v) <> 1) /\
+    no_degree_one L (fun e => memb e ke) /\
+    (forall K, ((forall e, K e = true -> e < nE L) /\ no_degree_one L K) ->
+               forall e, K e = true -> In e ke).
+Proof. exact trailing_spec. Qed.
+Print Assumptions C12_trailing_spec.
+
+(* quantifier "idempotence of trailing-edge removal" *)
+Theorem C12_trailing_idempotent : forall (L L' : lattice), wf_lattice L = true ->
+  remove_trailing_edges L = TrailDone L' -> remove_trailing_edges L' = TrailDone L'.
+Proof. exact trailing_idempotent. Qed.
+Print Assumptions C12_trailing_idempotent.
+
+(* clause "trailing-edge removal creates no new plaquettes" is FALSE of the faithful model (and of the
+   implementation: known finding trail:new-plaquette-from-face-with-dangling-tree): a triangle with a
+   dangling edge inside has no plaquette (the inner face walk uses the dangling edge twice), its
+   pruned version has one. *)
+Definition C12_witness : lattice :=
+  mkLattice 8 [(2, 2); (6, 2); (4, 6); (4, 3)]%Z [(0, 1); (1, 2); (2, 0); (0, 3)] [(0, 0); (0, 0); (0, 0); (0, 0)]%Z.
+Theorem C12_trailing_no_new_plaquettes_refuted :
+  exists L L' p, wf_lattice L = true /\ no_self_loops L = true /\
+    find_all_plaquettes L = Some [] /\
+    remove_trailing_edges L = TrailDone L' /\ find_all_plaquettes L' = Some [p].
+Proof.
+  exists C12_witness. eexists. eexists.
+  split; [vm_compute; reflexivity|]. split; [vm_compute; reflexivity|].
+  split; [vm_compute; reflexivity|]. split; vm_compute; reflexivity.
+Qed.
+Print Assumptions C12_trailing_no_new_plaquettes_refuted.
+
+(* ------------------------------------------------------------------ relabelling *)
+(* clause "permuting ... yields an isomorphic lattice with new position i equal to old position
+   ordering[i] ..., identical edge order": for every well-formed lattice and every permutation `ord` of
+   range(nV) (is_perm: length nV, duplicate-free, entries < nV) the result is L relabelled by
+   ren = inv_of (nV L) ord, where ord[ren v] = v: same scale, same crossing list, edge i = (ren j, ren k)
+   for old edge i = (j, k), position of ren v = old position of v, ren injective *)
+Theorem C12_permute_spec : forall (L : lattice) (ord : list nat),
+  wf_lattice L = true -> is_perm ord (nV L) ->
+  exists L', permute_vertices L ord = Some L' /\
+    relabelled L L' (inv_of (nV L) ord) /\
+    (forall i, i < nV L -> pos_at L' i = pos_at L (nth i ord 0)) /\
+    (forall v, v < nV L -> inv_of (nV L) ord v < nV L /\ nth (inv_of (nV L) ord v) ord 0 = v).
+Proof. exact permute_spec. Qed.
+Print Assumptions C12_permute_spec.
+
+(* clause "... or reordering vertices ... (resp. permutation applied to indices)": the result is L
+   relabelled by ren v = permutation[v] (np.argsort of a permutation is proved to be its inverse) *)
+Theorem C12_reorder_spec : forall (L : lattice) (perm : list nat),
+  wf_lattice L = true -> is_perm perm (nV L) ->
+  exists L', reorder_vertices L perm = Some L' /\ relabelled L L' (fun v => nth v perm 0).
+Proof. exact reorder_spec. Qed.
+Print Assumptions C12_reorder_spec.
+
+(* clause "identical ... edge vectors": for every relabelling, every edge index *)
+Theorem C12_relabelled_vectors : forall (L L' : lattice) (ren : nat -> nat),
+  wf_lattice L = true -> relabelled L L' ren -> forall e, evec L' e = evec L e.
+Proof. exact relabelled_evec. Qed.
+Print Assumptions C12_relabelled_vectors.
+
+(* clause "identical ... plaquettes": the plaquette list of the relabelled lattice is the original list
+   in the same order with the same edges, directions, centres, areas, winding numbers and with the
+   vertices renamed (ren_plaq); the plaquette finder raises on one iff on the other.  Applies to
+   permute_vertices and reorder_vertices through the two theorems above. *)
+Theorem C12_plaquettes_equivariant : forall (L L' : lattice) (ren : nat -> nat),
+  wf_lattice L = true -> relabelled L L' ren ->
+  find_all_plaquettes L' = option_map (map (ren_plaq ren)) (find_all_plaquettes L).
+Proof. exact plaquettes_equivariant. Qed.
+Print Assumptions C12_plaquettes_equivariant.
+
+Theorem C12_relabelled_wf : forall (L L' : lattice) (ren : nat -> nat),
+  wf_lattice L = true -> relabelled L L' ren -> wf_lattice L' = true.
+Proof. exact relabelled_wf. Qed.
+Print Assumptions C12_relabelled_wf.
+
+(* ------------------------------------------------------------------ non-vacuity *)
+Example C12_wf_nonvacuous : wf_lattice C12_witness = true /\ is_perm [2; 0; 3; 1] (nV C12_witness) /\
+  valid_sub C12_witness (kept_vertices C12_witness [3]) (kept_edges C12_witness [3]).
+Proof.
+  split; [vm_compute; reflexivity|]. split.
+  - repeat split; [repeat constructor; simpl; intuition discriminate | vm_compute; intros x Hx; intuition (subst; repeat constructor)].
+  - apply valid_sub_removed. vm_compute. reflexivity.
+Qed.
+
+Example C12_permute_nonvacuous :
+  option_map pos (permute_vertices C12_witness [2; 0; 3; 1]) = Some [(4, 6); (2, 2); (4, 3); (6, 2)]%Z /\
+  option_map edges (permute_vertices C12_witness [2; 0; 3; 1]) = Some [(1, 3); (3, 0); (0, 1); (1, 2)].
+Proof. split; vm_compute; reflexivity. Qed.
